@@ -5,6 +5,7 @@ pub mod c02;
 pub mod c03;
 pub mod c04;
 pub mod c06;
+pub mod c08;
 pub mod pairs;
 pub mod util;
 
@@ -17,6 +18,7 @@ pub fn run(ctx: &Ctx) -> PropResult {
         "C03" => c03::run(ctx),
         "C04" => c04::run(ctx),
         "C06" => c06::run(ctx),
+        "C08" => c08::run(ctx),
         other => Err(format!("no monitor for {}", other)),
     }
 }
